@@ -311,6 +311,58 @@ func corrC02(r *Run) {
 			Message: pdu.ShortMessage{UDHeader: pdu.UserDataHeader{1: long(126), 2: long(125)}, Message: long(5)}}},
 		{"message-141", &pdu.SubmitSM{Header: pdu.Header{Sequence: 1}, Message: pdu.ShortMessage{Message: long(141)}}},
 	}
+	// boundary combinations, with the expected verdict computed from the field widths of the specification
+	type maybe struct {
+		what       string
+		p          interface{}
+		expectable bool // true = the value fits its fields
+	}
+	var maybes []maybe
+	for i := 0; i < r.N(120, 2000); i++ {
+		u := pdu.UserDataHeader{}
+		total := 1
+		for k := 0; k < 1+r.Rng.Intn(5); k++ {
+			id := byte(k*7 + r.Rng.Intn(7))
+			sz := r.Rng.Pick([]int{0, 1, 5, 40, 100, 126, 200, 250, 255})
+			u[id] = long(sz)
+			total += 2 + sz
+		}
+		ml := r.Rng.Pick([]int{0, 1, 5, 30, 100, 140})
+		maybes = append(maybes, maybe{fmt.Sprintf("udh(%d)+message(%d)", total, ml),
+			&pdu.SubmitSM{Header: pdu.Header{Sequence: 1}, ESMClass: pdu.ESMClass{UDHIndicator: true},
+				Message: pdu.ShortMessage{UDHeader: u, Message: long(ml)}}, total+ml <= 255})
+	}
+	for _, c := range [][2]int{{200, 56}, {200, 55}, {255, 1}, {1, 255}, {255, 0}, {0, 255}, {255, 255}, {128, 128}, {127, 128}, {256, 0}, {0, 256}, {300, 212}} {
+		d := pdu.DestinationAddresses{Addresses: make([]pdu.Address, c[0]), DistributionList: make([]string, c[1])}
+		maybes = append(maybes, maybe{fmt.Sprintf("destinations(%d+%d)", c[0], c[1]),
+			&pdu.SubmitMulti{Header: pdu.Header{Sequence: 1}, DestAddrList: d}, c[0]+c[1] <= 255})
+	}
+	for _, c := range []int{0, 1, 254, 255, 256, 257, 511, 512} {
+		maybes = append(maybes, maybe{fmt.Sprintf("records(%d)", c),
+			&pdu.SubmitMultiResp{Header: pdu.Header{Sequence: 1}, UnsuccessfulSMEs: make(pdu.UnsuccessfulRecords, c)}, c <= 255})
+	}
+	for _, c := range []int{1, 65534, 65535, 65536, 65537, 131071} {
+		maybes = append(maybes, maybe{fmt.Sprintf("tlv(%d)", c),
+			&pdu.DeliverSMResp{Header: pdu.Header{Sequence: 1}, Tags: pdu.Tags{5: long(c)}}, c <= 65535})
+	}
+	for _, m := range maybes {
+		_, err, w, panicked, pmsg := marshalRec(m.p)
+		r.Count("maybe/"+m.what, true, "field-width boundary")
+		in := fmt.Sprintf("marshal %T %s", m.p, m.what)
+		switch {
+		case panicked:
+			r.Fail("misstatement/panic", "Marshal panicked", in, pmsg, "a frame or an error")
+		case err == nil && !m.expectable:
+			r.Fail("misstatement/"+strings.SplitN(m.what, "(", 2)[0], "Marshal emitted a frame for a value its field cannot express (the frame means something else)", in,
+				"frame "+shortHex(w.calls[0]), "an error")
+		case err == nil:
+			// the frame must state the value: decode and compare
+			o := readOnce(&chunkReader{data: w.calls[0], sched: []int{len(w.calls[0])}})
+			if len(w.calls[0]) <= 65536 && (o.Kind != "ok" || canonNoLenID(o.PDU) != canonNoLenID(m.p)) {
+				r.Fail("misstatement/"+strings.SplitN(m.what, "(", 2)[0]+"/decodes-differently", "the emitted frame does not state the value", in, o.Kind, "decodes to the value")
+			}
+		}
+	}
 	for _, b := range bads {
 		term := coqValue(b.p)
 		_, err, w, panicked, pmsg := marshalRec(b.p)
